@@ -124,7 +124,11 @@ class OpAddNe(OpAdd):
         target = self.path.parts[-1]
         if isinstance(parent, MutableSequence):
             if obj is UNDEFINED:
-                parent.append(self.value)
+                # Same as "add": "-" and an index equal to the length append.
+                if target == "-" or target == len(parent):
+                    parent.append(self.value)
+                else:
+                    raise JSONPatchError("index out of range")
             else:
                 parent.insert(int(target), self.value)
         elif isinstance(parent, MutableMapping):
